@@ -180,6 +180,10 @@ theorem di_step (cfg : Cfg) (s s' : State) (e : Event) (h : DI s) (hs : step cfg
     split at hs
     · split at hs <;> (injection hs with hs; subst hs; exact di_frame s _ h rfl rfl rfl rfl rfl)
     · simp at hs
+  case tick t =>
+    split at hs
+    · injection hs with hs; subst hs; exact di_frame s _ h rfl rfl rfl rfl rfl
+    · simp at hs
   case empty =>
     split at hs
     · injection hs with hs; subst hs; exact di_frame s _ h rfl rfl rfl rfl rfl
